@@ -257,6 +257,8 @@ def indent_region(rng, steps):
 def gen_doc(rng, cfg, pfx, modname, indented=True):
     layout = rng.choice(cfg.layouts)
     doc = {'layout': layout, 'tabs': indented and rng.random() < cfg.p_tabs, 'doctests': []}
+    if layout == 'freeform' and not doc['tabs'] and cfg.get('p_deep') and rng.random() < cfg['p_deep']:
+        doc['deep'] = rng.choice([2, 4, 4])
     nd = 1 if layout == 'freeform' else rng.randint(1, cfg.max_doctests_per_doc)
     for d in range(nd):
         dt = {'steps': gen_steps(rng, cfg, '%sd%d' % (pfx, d), modname)}
